@@ -237,14 +237,15 @@ func (s StepLimit) Error() string { return "step limit exceeded in " + s.Where }
 // ErrInconclusive wraps resource-bound hits.
 var ErrInconclusive = errors.New("inconclusive")
 
-var frameRe = regexp.MustCompile(`(?m)^(github\.com/crillab/gophersat[^\s(]*|main\.[^\s(]*)\(.*\n\s+(\S+?):(\d+)`)
+var frameRe = regexp.MustCompile(`(?m)^((?:github\.com/crillab/gophersat|main)[./][^\n]*)\n\s+(\S+?):(\d+)`)
+var argsRe = regexp.MustCompile(`\([^()]*\)$`)
 
 // PanicSite extracts the top gophersat frames from a stack.
 func PanicSite(stack []byte) string {
 	ms := frameRe.FindAllSubmatch(stack, 4)
 	var parts []string
 	for _, m := range ms {
-		fn := string(m[1])
+		fn := argsRe.ReplaceAllString(strings.TrimSpace(string(m[1])), "")
 		fn = strings.TrimPrefix(fn, "github.com/crillab/gophersat/")
 		parts = append(parts, fmt.Sprintf("%s@%s:%s", fn, filepath.Base(string(m[2])), m[3]))
 	}
